@@ -229,6 +229,8 @@ class Externals:
         if key in self.module_attrs:
             return iter([(ctx, self.module_attrs[key](eng, ctx))])
         name = base.name
+        if name in ('exceptions', 'socketio.exceptions'):
+            return iter([(ctx, ClassV('sio.' + attr))])
         if name.startswith('socketio.'):
             m = name.split('.', 1)[1]
             c = source.module_const(m, attr)
@@ -436,6 +438,10 @@ class Externals:
         """Call of an opaque callable (application handler / callback / method of an opaque object): recorded in
         the ghost log g.calls; may return anything and raise any Exception; state unchanged (H0)."""
         self.note('H0: application handlers and callbacks do not re-enter the server/client API; they may return anything and raise any Exception')
+        ev = self._event_op(eng, ctx, f, args, kwargs)
+        if ev is not None:
+            yield from ev
+            return
         if kwargs:
             raise Unsupported('keyword arguments to an opaque callable')
         key = ('g', 'calls')
@@ -459,6 +465,39 @@ class Externals:
                 ex.from_app = True
                 yield c2, Raised(ex)
             yield c, S(r)
+
+    def _event_op(self, eng, ctx, f, args, kwargs):
+        """x.set() / x.clear() / x.wait(timeout) / x.is_set() on an opaque object: a threading.Event / asyncio.Event
+        (ghost flag g.events[x]).  wait() may also return True because another thread set the event meanwhile."""
+        t = f.t
+        if not (z3.is_app(t) and t.decl().name() == 'meth' and ('g', 'events') in eng.schema.fields):
+            return None
+        name = t.arg(1)
+        if not (z3.is_const(name) and name.decl().name() in ('str:set', 'str:clear', 'str:wait', 'str:is_set')):
+            return None
+        op = name.decl().name()[4:]
+        obj = t.arg(0)
+        self.note('threading.Event / asyncio.Event: set() raises the flag, clear() lowers it, wait(timeout) returns True iff the flag is (or becomes) set, False on time-out')
+
+        def gen():
+            evs = ctx.st.get('g', 'events')
+            if op == 'set':
+                ctx.st = ctx.st.set('g', 'events', evs.with_child(('k', obj), SV(Leaf('B'), {'': z3.BoolVal(True)})))
+                yield ctx, S(NONE)
+            elif op == 'clear':
+                ctx.st = ctx.st.set('g', 'events', evs.with_child(('k', obj), SV(Leaf('B'), {'': z3.BoolVal(False)})))
+                yield ctx, S(NONE)
+            elif op == 'is_set':
+                yield ctx, S(evs.c['.'][obj])
+            else:
+                hook = getattr(self, 'wait_hook', None)
+                if hook is not None:
+                    yield from hook(eng, ctx, obj, args, kwargs)
+                    return
+                r = smt.fresh('woke', B)
+                ctx.assume(z3.Implies(evs.c['.'][obj], r))
+                yield ctx, S(r)
+        return gen()
 
     def callable_cond(self, eng, ctx, t):
         return z3.BoolVal(True)
